@@ -311,15 +311,17 @@ func propC17(a *Analysis, r *Registry) {
 					b.Eq(rB, name+"/up/step", a.W.InstrPos(c), ln, e, "l+1")
 				}
 				// continuation condition: header→latch
-				hdr := X.phiOf[l.SingleAtom().ID].Block()
-				var latch *ssa.BasicBlock
-				for _, p := range fc.Ctx.LivePreds(hdr) {
-					if fc.Ctx.Dominates(hdr, p) {
-						latch = p
+				var hdr *ssa.BasicBlock
+				for _, at := range l.Atoms(true) {
+					if ph, ok := X.phiOf[at.ID]; ok {
+						hdr = ph.Block() // the probe is at a loop counter, possibly offset (a look-ahead l-1)
 					}
 				}
-				if latch != nil {
-					cont := fc.ReachCondFrom(hdr, latch)
+				if hdr == nil {
+					anchorFail("the probe argument %s is not driven by a loop counter", clip(l.String(), 100))
+				}
+				{
+					cont := fc.ContinueCond(hdr)
 					if down {
 						eqR(rB, name+"/down/continue", a.W.InstrPos(c), cont, e, "minL<=l && ticker.CountTicks(l)<=o.Max")
 					} else {
@@ -333,10 +335,18 @@ func propC17(a *Analysis, r *Registry) {
 			// downward search, l after the upward search
 			b.guard(rB, name+"/result", func() {
 				rv0, rv1 := fc.RetVal(0), fc.RetVal(1)
-				phs := fc.loopPhis(rv0)
+				// the level "reached" by each search is its loop counter, or — when the loop looks one
+				// level ahead or advances before testing — that counter offset by one
+				var phs []*RF
+				for _, ph := range fc.loopPhis(rv0) {
+					phs = append(phs, ph, ph.Sub(S.Int(1)), ph.Add(S.Int(1)))
+				}
 				okForm := false
 				for _, d := range phs {
 					for _, u := range phs {
+						if okForm {
+							break
+						}
 						_, dn := fc.Recurrence(d)
 						_, un := fc.Recurrence(u)
 						e := X.EnvFor(fn, "o", "ticker", "guess")
@@ -370,6 +380,9 @@ func propC17(a *Analysis, r *Registry) {
 						if same {
 							okForm = true
 						}
+					}
+					if okForm {
+						break
 					}
 				}
 				if okForm {
